@@ -91,7 +91,43 @@ func optionDiscs(c *hist.Case, run *hist.Run, m *hist.Model, r *evid.Rec, pre st
 			for cid, ms := range ent {
 				peer := sn.Connected[cid]
 				p := run.Peers[peer]
-				if p.BlindAt(s.I) || hasSharedMatch(sn, cid, ti.Topic) {
+				if p.BlindAt(s.I) {
+					continue
+				}
+				if hasSharedMatch(sn, cid, ti.Topic) {
+					// Which member of a share group is chosen is C06's subject; but a client that is the only member of
+					// every matching group it belongs to is necessarily the chosen one, and its single copy then stands for
+					// its non-shared subscriptions and the shared ones together: the identifiers of all of them
+					// (seeded change C04-e: the merge of the chosen shared subscription drops accumulated identifiers).
+					// Only the identifier clause is asserted here, and only for foreign messages without No Local in play.
+					var ids []uint32
+					sole := p.Version == 5 && cid != ti.CID
+					nShared := 0 // exactly one matching shared subscription: how the broker combines several chosen ones is not stated
+					for f, st := range sn.Subs[cid] {
+						if !reftopic.MatchSub(f, ti.Topic) {
+							continue
+						}
+						if st.Opts.NoLocal {
+							sole = false
+						}
+						if _, _, sh, _ := reftopic.SplitShare(f); sh {
+							nShared++
+							for other, subs := range sn.Subs {
+								if _, has := subs[f]; has && other != cid {
+									sole = false
+								}
+							}
+						}
+						if st.SubID > 0 {
+							ids = append(ids, st.SubID)
+						}
+					}
+					if got := s.Deliveries(peer, s.Tag); sole && nShared == 1 && len(got) == 1 {
+						r.Label("live/only-member-of-matching-share-groups")
+						if idSet(got[0].Props.SubscriptionIDs) != idSet(ids) {
+							ds = append(ds, evid.D(pre+"-live-subscription-identifiers-shared-and-non-shared", "step %d: m%d to %s (only member of its matching share groups): identifiers %v, expected the set %v of all its matching subscriptions", s.I, s.Tag, cid, got[0].Props.SubscriptionIDs, ids))
+						}
+					}
 					continue
 				}
 				got := s.Deliveries(peer, s.Tag)
@@ -248,7 +284,7 @@ func optionDiscs(c *hist.Case, run *hist.Run, m *hist.Model, r *evid.Rec, pre st
 }
 
 func TestC04(t *testing.T) {
-	r := evid.New("C04", "rapid: C03-style histories with server MaximumQos in {0,1,2}, 1-3 overlapping filters per SUBSCRIBE with independent QoS / identifier (boundary-biased) / Retain As Published / Retain Handling, retained and non-retained publishes at QoS<=server maximum, later subscriptions that pick up retained messages, v3/v3.1.1/v5 receivers; one history in three instead has persistent sessions that go offline and return, Receive Maximum 1/2 and manual acknowledgements, so that messages are delivered late from the stored copy (released by flow control, offline queue, resend), judged against the subscriptions that matched at publish time; oracle on the wire: SUBACK code = min(requested, server max); live QoS = min(published, max matching subscription QoS, server max); identifiers = set of identifiers of matching subscriptions; retain flag per RAP (asserted only when all matching subscriptions agree); retained replay: identifier of the SUBSCRIBE, QoS = min(message, subscription, server max); non-trivial = >=2 matching subscriptions, a QoS above the server maximum, or a retained replay to a subscription with identifier")
+	r := evid.New("C04", "rapid: C03-style histories with server MaximumQos in {0,1,2}, 1-3 overlapping filters per SUBSCRIBE with independent QoS / identifier (boundary-biased) / Retain As Published / Retain Handling, retained and non-retained publishes at QoS<=server maximum, later subscriptions that pick up retained messages, v3/v3.1.1/v5 receivers; one history in three instead has persistent sessions that go offline and return, Receive Maximum 1/2 and manual acknowledgements, so that messages are delivered late from the stored copy (released by flow control, offline queue, resend), judged against the subscriptions that matched at publish time; oracle on the wire: SUBACK code = min(requested, server max); live QoS = min(published, max matching subscription QoS, server max); identifiers = set of identifiers of matching subscriptions (a shared one included when it is the client's only matching shared subscription and the client is the only member of that group; otherwise clients with a matching shared subscription are left to C06); retain flag per RAP (asserted only when all matching subscriptions agree); retained replay: identifier of the SUBSCRIBE, QoS = min(message, subscription, server max); non-trivial = >=2 matching subscriptions, a QoS above the server maximum, or a retained replay to a subscription with identifier")
 	defer r.Finish(t)
 	if evid.ReplayMode() {
 		evid.Replay(t, r, replayPath(), c04Check)
@@ -257,7 +293,7 @@ func TestC04(t *testing.T) {
 	g := defaultHistGen()
 	g.Retain = true
 	g.WDisconnect, g.WDrop, g.WConnect = 0, 0, 1
-	g.Filters = []string{"a", "a/b", "a/#", "#", "+", "a/+", "+/b", "a/b/#", "+/#", "b", "b/#"}
+	g.Filters = []string{"a", "a/b", "a/#", "#", "+", "a/+", "+/b", "a/b/#", "+/#", "b", "b/#", "$share/g/a/b", "$share/g/#", "$share/h/a/+"}
 	g.Topics = []string{"a", "a/b", "b", "a/b/c"}
 	evid.Run(t, r, func(rt *rapid.T) *hist.Case {
 		mq := byte(rapid.IntRange(0, 2).Draw(rt, "maxqos"))
